@@ -1,5 +1,5 @@
 (* C20/Proofs.v -- lemmas about C20/Model.v (at the R instance). *)
-From Coq Require Import ZArith List Bool Reals Lia.
+From Coq Require Import ZArith List Bool Reals Lia Lra.
 From Verif Require Import Base.Num Base.Check C20.Syntax C20.Model.
 Import ListNotations.
 
@@ -528,3 +528,222 @@ Proof.
 Qed.
 
 End Equiv.
+
+(* ------------------------------------------------------------ hash keys *)
+Section Keys.
+Notation keqR := (@key_eqv R Num_R).
+
+Lemma key_eqv_tup l1 l2 : keqR (KTup l1) (KTup l2) = all2 keqR l1 l2.
+Proof.
+  cbn [key_eqv]. revert l2. induction l1 as [|x l1 IH]; intros [|y l2]; cbn [all2]; try reflexivity.
+  rewrite IH. reflexivity.
+Qed.
+
+Definition kset_eqv (l1 l2 : list (key R)) : bool :=
+  forallb (fun s => existsb (fun t => keqR s t) l2) l1 && forallb (fun t => existsb (fun s => keqR s t) l1) l2.
+
+Lemma key_eqv_set l1 l2 : keqR (KSet l1) (KSet l2) = kset_eqv l1 l2.
+Proof. reflexivity. Qed.
+
+Lemma all2_refl {A} (f : A -> A -> bool) l : Forall (fun x => f x x = true) l -> all2 f l l = true.
+Proof. induction 1 as [|x l Hx Hl IH]; cbn; [reflexivity|]. rewrite Hx. exact IH. Qed.
+
+Lemma key_eqv_refl : forall k : key R, keqR k k = true.
+Proof.
+  induction k as [k Ht Hs|l IH|l IH] using key_ind'.
+  - destruct k; try (exfalso; eapply Ht; reflexivity); try (exfalso; eapply Hs; reflexivity);
+      cbn; try reflexivity; try apply Z.eqb_refl;
+      try (apply neqb_R; reflexivity); try (apply dtype_eqb_eq; reflexivity).
+  - rewrite key_eqv_tup. apply all2_refl, IH.
+  - rewrite key_eqv_set. unfold kset_eqv. rewrite Forall_forall in IH.
+    apply andb_true_iff; split; apply forallb_forall; intros x Hx; apply existsb_exists; exists x; auto.
+Qed.
+
+Lemma key_eqv_of_eq (a b : key R) : a = b -> keqR a b = true.
+Proof. intros ->. apply key_eqv_refl. Qed.
+
+End Keys.
+
+Section HashConsistency.
+Variable v : variants.
+Hypothesis Hg : v_intv_guard v = true.
+Hypothesis Hh : v_arrw_hash_type v = false.
+Notation eqR := (@eqt R Num_R v).
+Notation keqR := (@key_eqv R Num_R).
+Notation hk := (@hash_key R Num_R v).
+
+Lemma w_key_strip (w : weighting R) : w_key v w = w_key v (w_strip w).
+Proof. destruct w as [k c e|k i e|k f|k f|k f]; try reflexivity. destruct k; cbn; rewrite ?Hh; reflexivity. Qed.
+
+Lemma w_eqb_key (a b : weighting R) : w_eqb a b = true -> w_key v a = w_key v b.
+Proof. intro E. apply w_eqb_strip in E. rewrite (w_key_strip a), (w_key_strip b), E. reflexivity. Qed.
+
+Lemma tsp_eqb_key (a b : tsp R) : tsp_eqb a b = true -> tsp_key v a = tsp_key v b.
+Proof.
+  unfold tsp_eqb, tsp_key. rewrite !andb_true_iff, Zs_eqb_eq, dtype_eqb_eq.
+  intros [[-> ->] E]. rewrite (w_eqb_key _ _ E). reflexivity.
+Qed.
+
+Lemma tupt_keys (l1 : list (obj R)) :
+  Forall (fun x => forall y, eqR x y = TT -> keqR (hk x) (hk y) = true) l1 ->
+  forall l2, tupt eqR l1 l2 = TT -> all2 keqR (map hk l1) (map hk l2) = true.
+Proof.
+  induction 1 as [|x l1 Hx Hl IH]; intros [|y l2]; cbn [tupt map all2]; try discriminate; auto.
+  destruct (eqR x y) eqn:E; try discriminate. intro E2. rewrite (Hx _ E). apply IH, E2.
+Qed.
+Lemma zipt_keys (l1 : list (obj R)) :
+  Forall (fun x => forall y, eqR x y = TT -> keqR (hk x) (hk y) = true) l1 ->
+  forall l2, length l1 = length l2 -> zipt eqR l1 l2 = TT -> all2 keqR (map hk l1) (map hk l2) = true.
+Proof.
+  induction 1 as [|x l1 Hx Hl IH]; intros [|y l2]; cbn [zipt map all2 length]; try discriminate; auto.
+  intro L. destruct (eqR x y) eqn:E; try discriminate. intro E2. rewrite (Hx _ E). apply IH; [lia | exact E2].
+Qed.
+
+Lemma setlike_keys (l1 l2 : list (obj R)) :
+  Forall (fun x => forall y, eqR x y = TT -> keqR (hk x) (hk y) = true) l1 ->
+  setlike_eqt v l1 l2 = TT -> kset_eqv (map hk l1) (map hk l2) = true.
+Proof.
+  intro IH. rewrite Forall_forall in IH. rewrite (setlike_TT v Hg). intros [H1 H2].
+  unfold kset_eqv. apply andb_true_iff; split; apply forallb_forall; intros k Hk;
+    apply in_map_iff in Hk; destruct Hk as [x [<- Hx]]; apply existsb_exists.
+  - destruct (H1 x Hx) as [t [Ht E]]. exists (hk t); split; [apply in_map, Ht | apply IH; assumption].
+  - destruct (H2 x Hx) as [s [Hs E]]. exists (hk s); split; [apply in_map, Hs | apply IH; assumption].
+Qed.
+
+Theorem eqt_hash_key : forall a b : obj R, eqR a b = TT -> keqR (hk a) (hk b) = true.
+Proof.
+  induction a as [| |n| | | |l IH|l IH|l IH|els|e|g|t|p t|l w f IH] using obj_ind'; intro b;
+    destruct b; try (cbn; discriminate); try (cbn; reflexivity).
+  - cbn [eqt]. rewrite tri_of_TT, Z.eqb_eq. intros ->. apply key_eqv_refl.
+  - rewrite eqt_cart. intro E. cbn [hash_key]. rewrite key_eqv_tup. cbn [all2].
+    rewrite key_eqv_tup, (tupt_keys _ IH _ E). reflexivity.
+  - rewrite eqt_union. intro E. cbn [hash_key]. rewrite key_eqv_tup. cbn [all2].
+    rewrite key_eqv_set, (setlike_keys _ _ IH E). reflexivity.
+  - rewrite eqt_inter. intro E. cbn [hash_key]. rewrite key_eqv_tup. cbn [all2].
+    rewrite key_eqv_set, (setlike_keys _ _ IH E). reflexivity.
+  - cbn [eqt]. rewrite tri_of_TT, finite_TT. intro E. cbn [hash_key]. rewrite key_eqv_tup. cbn [all2].
+    rewrite key_eqv_set.
+    assert (K : kset_eqv (map atom_key els) (map atom_key els0) = true).
+    { unfold kset_eqv. apply andb_true_iff; split; apply forallb_forall; intros k Hk;
+      apply in_map_iff in Hk; destruct Hk as [x [<- Hx]]; apply existsb_exists;
+      exists (atom_key x); (split; [apply in_map, E, Hx | apply key_eqv_refl]). }
+    rewrite K. reflexivity.
+  - cbn [eqt]. rewrite (intv_eqt_TT v Hg). intro E; inversion E; subst. apply key_eqv_refl.
+  - cbn [eqt]. rewrite tri_of_TT, grid_eqb_eq. intros ->. apply key_eqv_refl.
+  - cbn [eqt]. rewrite tri_of_TT. intro E. cbn [hash_key]. rewrite (tsp_eqb_key _ _ E). apply key_eqv_refl.
+  - cbn [eqt]. rewrite !andt_TT, !tri_of_TT, (part_eqt_TT v Hg), andb_true_iff, Zs_eqb_eq, dtype_eqb_eq.
+    intros [[A1 A2] [A3 A4]]. cbn [hash_key]. rewrite A1, A2, (tsp_eqb_key _ _ A3), A4. apply key_eqv_refl.
+  - rewrite eqt_prod.
+    destruct (Nat.eqb (length l) (length l0)) eqn:L1; [|discriminate]. cbn [negb].
+    destruct (w_eqb w w0) eqn:W1; [|discriminate]. cbn [negb]. intro E.
+    apply Nat.eqb_eq in L1. cbn [hash_key]. rewrite key_eqv_tup. cbn [all2].
+    rewrite key_eqv_tup, (zipt_keys _ IH _ L1 E), (w_eqb_key _ _ W1), !key_eqv_refl. reflexivity.
+Qed.
+
+End HashConsistency.
+
+(* equivalent keys are hashable together *)
+Section Hashable.
+Notation keqR := (@key_eqv R Num_R).
+Notation hashR := (@hashable R).
+
+Lemma hashable_tup (l : list (key R)) : hashR (KTup l) = forallb hashR l.
+Proof. cbn [hashable]. induction l as [|x l IH]; cbn [forallb]; [reflexivity|]. rewrite IH. reflexivity. Qed.
+Lemma hashable_set (l : list (key R)) : hashR (KSet l) = forallb hashR l.
+Proof. cbn [hashable]. induction l as [|x l IH]; cbn [forallb]; [reflexivity|]. rewrite IH. reflexivity. Qed.
+
+Lemma key_eqv_hashable : forall a b : key R, keqR a b = true -> hashR a = hashR b.
+Proof.
+  induction a as [k Ht Hs|l IH|l IH] using key_ind'; intros b E.
+  - destruct k, b; cbn in E; try discriminate; try reflexivity.
+    + exfalso; eapply Ht; reflexivity.
+    + exfalso; eapply Hs; reflexivity.
+  - destruct b; try discriminate. rewrite key_eqv_tup in E. rewrite !hashable_tup.
+    revert l0 E. induction IH as [|x l Hx Hl IHl]; intros [|y l0]; cbn [all2 forallb]; try discriminate; auto.
+    intro E. apply andb_true_iff in E as [E1 E2]. rewrite (Hx _ E1), (IHl _ E2). reflexivity.
+  - destruct b; try discriminate. rewrite key_eqv_set in E. rewrite !hashable_set.
+    unfold kset_eqv in E. apply andb_true_iff in E as [E1 E2]. rewrite forallb_forall in E1, E2.
+    rewrite Forall_forall in IH.
+    destruct (forallb hashR l) eqn:A, (forallb hashR l0) eqn:B; try reflexivity; exfalso.
+    + (* some t in l0 unhashable; it is equivalent to an s in l *)
+      assert (forallb hashR l0 = true); [|congruence].
+      apply forallb_forall. intros t Ht. apply E2, existsb_exists in Ht. destruct Ht as [s [Hs Est]].
+      rewrite <- (IH s Hs t Est). rewrite forallb_forall in A. apply A, Hs.
+    + assert (forallb hashR l = true); [|congruence].
+      apply forallb_forall. intros s Hs. pose proof (E1 s Hs) as Ex. apply existsb_exists in Ex.
+      destruct Ex as [t [Ht Est]]. rewrite (IH s Hs t Est). rewrite forallb_forall in B. apply B, Ht.
+Qed.
+End Hashable.
+
+(* ------------------------------------------------------------ refutations for the current variants *)
+Section Refuted.
+Notation eqC := (@eqt R Num_R current_variants).
+Notation keqR := (@key_eqv R Num_R).
+Notation hkC := (@hash_key R Num_R current_variants).
+
+Definition I01 : ext R * ext R := (Fin 0%R, Fin 1%R).
+Definition Ind (n : nat) : obj R := OIntv (repeat I01 n).
+
+Lemma Reqb_01 : Reqb 0 1 = false.
+Proof. destruct (Reqb_spec 0 1) as [E|E]; [exfalso; lra | reflexivity]. Qed.
+
+(* IntervalProd(0, 1) == IntervalProd([0,0,0], [1,1,1]) by broadcasting ... *)
+Lemma intv_1_3_equal : eqC (Ind 1) (Ind 3) = TT.
+Proof. cbn. numR. rewrite !Reqb_refl. reflexivity. Qed.
+(* ... but the hashed tuples have different lengths *)
+Lemma intv_1_3_keys : keqR (hkC (Ind 1)) (hkC (Ind 3)) = false.
+Proof. cbn. numR. rewrite ?Reqb_refl. reflexivity. Qed.
+Lemma intv_2_1_equal : eqC (Ind 2) (Ind 1) = TT.
+Proof. cbn. numR. rewrite !Reqb_refl. reflexivity. Qed.
+(* ndim 2 against ndim 3: NumPy cannot broadcast, the comparison raises *)
+Lemma intv_2_3_raises : eqC (Ind 2) (Ind 3) = EE.
+Proof. reflexivity. Qed.
+(* SetUnion(I2, I3) == SetUnion(I2, I3) raises while testing I3 against I2 *)
+Lemma union_self_raises : eqC (OUnion [Ind 2; Ind 3]) (OUnion [Ind 2; Ind 3]) = EE.
+Proof.
+  assert (E22 : eqC (Ind 2) (Ind 2) = TT) by (cbn; numR; rewrite !Reqb_refl; reflexivity).
+  assert (E32 : eqC (Ind 3) (Ind 2) = EE) by reflexivity.
+  rewrite eqt_union. unfold setlike_eqt. cbn [allt anyt]. rewrite E22, E32. reflexivity.
+Qed.
+
+(* array weightings of the two class families sharing one array object *)
+Lemma arrw_equal : @w_eqb R Num_R (WArray KNpy 1 (EFin 2%R)) (WArray KPs 1 (EFin 2%R)) = true.
+Proof. apply w_eqb_strip. reflexivity. Qed.
+Lemma arrw_keys : keqR (w_key current_variants (WArray KNpy 1 (EFin 2%R)))
+                       (w_key current_variants (WArray KPs 1 (EFin 2%R))) = false.
+Proof. reflexivity. Qed.
+End Refuted.
+
+(* ------------------------------------------------------------ statements as used by Props.v *)
+Lemma eqt_hash_full v : v_intv_guard v = true -> v_arrw_hash_type v = false ->
+  forall a b : obj R, @eqt R _ v a b = TT ->
+  @key_eqv R _ (hash_key v a) (hash_key v b) = true /\
+  hashable (@hash_key R _ v a) = hashable (@hash_key R _ v b).
+Proof.
+  intros Hg Hh a b E. pose proof (eqt_hash_key v Hg Hh a b E) as K.
+  split; [exact K | exact (key_eqv_hashable _ _ K)].
+Qed.
+
+Lemma w_equiv (a b c : weighting R) :
+  w_eqb a a = true /\ w_eqb a b = w_eqb b a /\
+  (w_eqb a b = true -> w_eqb b c = true -> w_eqb a c = true).
+Proof. split; [apply w_eqb_strip; reflexivity | split; [apply w_eqb_sym | apply w_eqb_trans]]. Qed.
+
+Lemma contains_sym v : v_intv_guard v = true ->
+  forall (S : obj R) (x : elem R), @contains R _ v S x = @eqt R _ v S (space_of x).
+Proof. intros Hg S x. unfold contains. apply eqt_sym, Hg. Qed.
+
+Lemma hash_refuted :
+  exists a b : obj R, @eqt R _ current_variants a b = TT /\
+    @key_eqv R _ (hash_key current_variants a) (hash_key current_variants b) = false.
+Proof. exists (Ind 1), (Ind 3). split; [exact intv_1_3_equal | exact intv_1_3_keys]. Qed.
+Lemma trans_refuted :
+  exists a b c : obj R, @eqt R _ current_variants a b = TT /\ @eqt R _ current_variants b c = TT /\
+    @eqt R _ current_variants a c = EE.
+Proof. exists (Ind 2), (Ind 1), (Ind 3). repeat split; [exact intv_2_1_equal | exact intv_1_3_equal]. Qed.
+Lemma refl_refuted : exists a : obj R, @eqt R _ current_variants a a = EE.
+Proof. exists (OUnion [Ind 2; Ind 3]). exact union_self_raises. Qed.
+Lemma w_hash_refuted :
+  exists a b : weighting R, w_eqb a b = true /\
+    @key_eqv R _ (w_key current_variants a) (w_key current_variants b) = false.
+Proof. exists (WArray KNpy 1 (EFin 2%R)), (WArray KPs 1 (EFin 2%R)). split; [exact arrw_equal | exact arrw_keys]. Qed.
